@@ -578,17 +578,214 @@ static void run_hist(const char *args)
   free(b);
 }
 
+/* ---------------------------------------------------------------- crop mode */
+/* crop <flags> <seed> <hex>
+ * jpeg_crop_scanline sweep on one (valid or mildly damaged) stream: for a set of xoffsets covering
+ * all residues modulo the iMCU width and several widths, decode the region twice into row buffers
+ * pre-filled with 0x5A / 0xA5, reading <rows> scan lines per call; every sample of every row
+ * reported as produced must be the same in both runs (i.e. was written by the library).
+ * flags: bit0 do_fancy_upsampling, bit1 JDCT_IFAST, bits2-3 rows per call - 1, bit4 out colour space
+ * variant, bit5 scale 1/2, bit6 do_block_smoothing off, bit7 skip_scanlines in the middle */
+static unsigned long crop_once(const unsigned char *buf, size_t len, int flags, JDIMENSION xo, JDIMENSION cw, int fill, long *rows_out, int *err)
+{
+  struct jpeg_decompress_struct c; struct my_err e; unsigned long hh = 7; volatile long rows = 0; unsigned char *volatile rowbuf = NULL;
+  int nper = ((flags >> 2) & 3) + 1;
+  *err = 0;
+  memset(&c, 0, sizeof(c));
+  c.err = jpeg_std_error(&e.pub); e.pub.error_exit = my_exit; e.pub.emit_message = my_emit; e.pub.output_message = my_output; e.code = 0; e.eofw = 0;
+  if (setjmp(e.jb)) { *err = e.code ? e.code : -1; goto done; }
+  jpeg_create_decompress(&c);
+  c.mem->max_memory_to_use = 256L * 1024 * 1024;
+  jpeg_mem_src(&c, buf, (unsigned long)len);
+  if (jpeg_read_header(&c, TRUE) != JPEG_HEADER_OK) { *err = -2; goto done; }
+  if ((unsigned long long)c.image_width * c.image_height > MAXPIXELS || c.master->lossless || c.data_precision > 12) { *err = -3; goto done; }
+  {
+    int prec = c.data_precision, ssz = prec <= 8 ? 1 : 2, k; JSAMPROW rp[4]; size_t rowbytes;
+    c.do_fancy_upsampling = flags & 1; c.dct_method = (flags & 2) ? JDCT_IFAST : JDCT_ISLOW;
+    c.do_block_smoothing = (flags & 64) ? FALSE : TRUE;
+    if (flags & 32) { c.scale_num = 1; c.scale_denom = 2; }
+    if ((flags & 16) && c.jpeg_color_space == JCS_YCbCr) c.out_color_space = prec <= 8 ? JCS_EXT_BGRX : JCS_GRAYSCALE;
+    jpeg_start_decompress(&c);
+    if (xo >= c.output_width) xo = c.output_width - 1;
+    if (cw == 0 || xo + cw > c.output_width) cw = c.output_width - xo;
+    if (prec <= 8) jpeg_crop_scanline(&c, &xo, &cw); else jpeg12_crop_scanline(&c, &xo, &cw);
+    rowbytes = (size_t)c.output_width * c.output_components * ssz;
+    rowbuf = (unsigned char *)malloc(rowbytes * nper + 1);
+    for (k = 0; k < nper; k++) rp[k] = rowbuf + k * rowbytes;
+    while (c.output_scanline < c.output_height) {
+      JDIMENSION n, want = nper;
+      if ((flags & 128) && c.output_scanline == c.output_height / 3 && c.output_height > 9) {
+        if (prec <= 8) jpeg_skip_scanlines(&c, c.output_height / 4); else jpeg12_skip_scanlines(&c, c.output_height / 4);
+        if (c.output_scanline >= c.output_height) break;
+      }
+      memset(rowbuf, fill, rowbytes * nper);
+      if (prec <= 8) n = jpeg_read_scanlines(&c, rp, want); else n = jpeg12_read_scanlines(&c, (J12SAMPARRAY)rp, want);
+      if (n == 0) break;
+      hh = hh * 31 + fnv(rowbuf, rowbytes * n); rows += n;
+    }
+    jpeg_finish_decompress(&c);
+  }
+done:
+  *rows_out = rows;
+  jpeg_destroy_decompress(&c);
+  free(rowbuf);
+  return hh;
+}
+
+static void run_crop(const char *args)
+{
+  int flags, seed, n = 0, cases = 0, bad = 0, fx = -1, fw = -1, errs = 0, i; size_t len; unsigned char *buf; double t0 = cpu_us();
+  unsigned long acc = 7;
+  if (sscanf(args, "%d %d %n", &flags, &seed, &n) < 2) { puts("crop ?"); return; }
+  buf = unhex(args + n, &len);
+  rs = (unsigned long long)seed * 1315423911ULL + 7;
+  for (i = 0; i < 20; i++) {
+    /* xoffsets: i-th residue class of a random base, so that 20 cases span all residues mod 16 and most mod 32 */
+    JDIMENSION xo = (JDIMENSION)((seed * 7 + i * 5) % 48 + (rnd() % 2) * 48), cw;
+    long r0, r1; int e0, e1; unsigned long h0, h1;
+    switch (rnd() % 5) { case 0: cw = 1; break; case 1: cw = 2 + rnd() % 3; break; case 2: cw = 0; break; default: cw = 1 + rnd() % 64; }
+    h0 = crop_once(buf, len, flags, xo, cw, 0x5A, &r0, &e0);
+    if (e0 == -2 || e0 == -3) { errs++; break; }
+    h1 = crop_once(buf, len, flags, xo, cw, 0xA5, &r1, &e1);
+    cases++;
+    if (e0 || e1) errs++;
+    if (r0 != r1 || e0 != e1 || h0 != h1) { bad++; if (fx < 0) { fx = (int)xo; fw = (int)cw; } }
+    acc = acc * 31 + h0;
+  }
+  printf("crop flags=%d cases=%d errs=%d bad=%d first=%d,%d oh=%lx t=%.0f\n", flags, cases, errs, bad, fx, fw, acc, cpu_us() - t0);
+  free(buf);
+}
+
+/* ------------------------------------------------------------------ bq mode */
+/* bq <seed> <hex>
+ * libjpeg buffered-image mode with colour-quantisation mode changes between output passes, legal
+ * and illegal alike (quantize_colors, two_pass_quantize, enable_1pass/2pass/external_quant, colormap
+ * NULL / external, jpeg_new_colormap, dither mode, desired_number_of_colors, block smoothing).
+ * Every library call is made under the error manager: a pass ends "ok" or "err<code>"; anything
+ * else (crash, sanitizer report, hang) is a violation.  Two runs (different row pre-fill) must agree. */
+static void bq_once(const unsigned char *buf, size_t len, int seed, int fill, char *sum, size_t sumsz)
+{
+  struct jpeg_decompress_struct c; struct my_err e; struct jpeg_progress_mgr pm; unsigned char *volatile rowbuf = NULL;
+  volatile int pass = 0; volatile unsigned long hh = 7; size_t o = 0; volatile int phase = 0;
+  sum[0] = 0;
+  rs = (unsigned long long)seed * 2654435761ULL + 11;
+  memset(&c, 0, sizeof(c));
+  c.err = jpeg_std_error(&e.pub); e.pub.error_exit = my_exit; e.pub.emit_message = my_emit; e.pub.output_message = my_output; e.code = 0; e.eofw = 0;
+  jpeg_create_decompress(&c);
+  c.mem->max_memory_to_use = 256L * 1024 * 1024;
+  memset(&pm, 0, sizeof(pm)); pm.progress_monitor = prog_mon; c.progress = &pm; max_scans = SCANLIMIT + 4;
+  if (setjmp(e.jb)) {
+    o = strlen(sum); snprintf(sum + o, sumsz - o, "|p%d.%d:err%d", (int)pass, (int)phase, e.code);
+    if (phase == 0 || pass > 6) goto done;
+    /* an error inside a pass: the object is still usable for jpeg_abort; stop the history here */
+    goto done;
+  }
+  jpeg_mem_src(&c, buf, (unsigned long)len);
+  if (jpeg_read_header(&c, TRUE) != JPEG_HEADER_OK) { snprintf(sum, sumsz, "nohdr"); goto done; }
+  if ((unsigned long long)c.image_width * c.image_height > MAXPIXELS || c.master->lossless || c.data_precision > 12) { snprintf(sum, sumsz, "skip"); goto done; }
+  c.buffered_image = TRUE;
+  c.quantize_colors = rnd() % 2; c.two_pass_quantize = rnd() % 2;
+  c.enable_1pass_quant = rnd() % 2; c.enable_2pass_quant = rnd() % 2; c.enable_external_quant = rnd() % 2;
+  c.desired_number_of_colors = (int[]){ 2, 8, 64, 256, 257, 1, 255, 16 }[rnd() % 8];
+  c.dither_mode = (J_DITHER_MODE)(rnd() % 3);
+  c.do_fancy_upsampling = rnd() % 2; c.do_block_smoothing = rnd() % 2;
+  if (rnd() % 4 == 0 && c.jpeg_color_space == JCS_YCbCr) c.out_color_space = JCS_GRAYSCALE;
+  phase = 1;
+  jpeg_start_decompress(&c);
+  {
+    int prec = c.data_precision, ssz = prec <= 8 ? 1 : 2;
+    size_t rowbytes = (size_t)c.output_width * 4 * ssz + 16;
+    rowbuf = (unsigned char *)malloc(rowbytes);
+    for (pass = 1; pass <= 5; pass++) {
+      int act = rnd() % 8, nrows = 0; JDIMENSION n;
+      phase = 2;
+      /* mode change before the pass */
+      if (act == 1) c.quantize_colors = !c.quantize_colors;
+      if (act == 2) { c.quantize_colors = TRUE; c.two_pass_quantize = !c.two_pass_quantize; c.colormap = NULL; }
+      if (act == 3 || act == 4) {   /* external colormap */
+        int nc = 2 + rnd() % 200, i, k, comps = c.out_color_components > 0 ? c.out_color_components : 3;
+        c.quantize_colors = TRUE;
+        /* capacity 512 entries, all initialised: if the application "forgets" jpeg_new_colormap the
+           quantizer's stale indices (< 257 here) still address memory the application owns */
+        c.colormap = (*c.mem->alloc_sarray) ((j_common_ptr)&c, JPOOL_IMAGE, (JDIMENSION)512, (JDIMENSION)comps);
+        for (k = 0; k < comps; k++) for (i = 0; i < 512; i++) {
+          if (prec <= 8) c.colormap[k][i] = (JSAMPLE)(rnd() & 255); else ((J12SAMPARRAY)c.colormap)[k][i] = (J12SAMPLE)(rnd() & 4095);
+        }
+        c.actual_number_of_colors = nc;
+        if (act == 4) { phase = 3; jpeg_new_colormap(&c); }
+      }
+      if (act == 5) { c.quantize_colors = TRUE; c.colormap = NULL; c.desired_number_of_colors = 4 + rnd() % 250; }
+      if (act == 6) c.dither_mode = (J_DITHER_MODE)(rnd() % 3);
+      if (act == 7) { c.do_block_smoothing = !c.do_block_smoothing; }
+      phase = 4;
+      jpeg_start_output(&c, c.input_scan_number);
+      phase = 5;
+      if (act == 0 && (rnd() & 1)) { phase = 6; if (c.quantize_colors && c.colormap) jpeg_new_colormap(&c); phase = 5; }
+      while (c.output_scanline < c.output_height) {
+        memset(rowbuf, fill, rowbytes);
+        if (prec <= 8) { JSAMPROW r = (JSAMPROW)rowbuf; n = jpeg_read_scanlines(&c, &r, 1); }
+        else { J12SAMPROW r = (J12SAMPROW)rowbuf; n = jpeg12_read_scanlines(&c, &r, 1); }
+        if (!n) break;
+        hh = hh * 31 + fnv(rowbuf, (size_t)c.output_width * c.output_components * ssz); nrows++;
+      }
+      phase = 7;
+      jpeg_finish_output(&c);
+      o = strlen(sum); snprintf(sum + o, sumsz - o, "|p%d:a%d,q%d,r%d", (int)pass, act, c.quantize_colors ? 1 : 0, nrows);
+      if (jpeg_input_complete(&c) && pass >= 3) break;
+    }
+    phase = 8;
+    jpeg_finish_decompress(&c);
+  }
+done:
+  o = strlen(sum); snprintf(sum + o, sumsz - o, "|h%lx", (unsigned long)hh);
+  jpeg_destroy_decompress(&c);
+  free(rowbuf);
+}
+
+static void run_bq(const char *args)
+{
+  int seed, n = 0; size_t len; unsigned char *buf; char s0[600], s1[600]; double t0 = cpu_us();
+  if (sscanf(args, "%d %n", &seed, &n) < 1) { puts("bq ?"); return; }
+  buf = unhex(args + n, &len);
+  bq_once(buf, len, seed, 0x5A, s0, sizeof(s0));
+  bq_once(buf, len, seed, 0xA5, s1, sizeof(s1));
+  printf("bq seed=%d same=%d r=%s t=%.0f\n", seed, strcmp(s0, s1) == 0, s0, cpu_us() - t0);
+  free(buf);
+}
+
+/* ---------------------------------------------------------------- watchdog */
+#include <signal.h>
+#include <unistd.h>
+#include <sys/time.h>
+static void on_alarm(int sig)
+{
+  static const char m[] = "TIMEOUT\n";
+  (void)sig;
+  if (write(1, m, sizeof(m) - 1)) {}
+  _exit(3);
+}
+static void arm_watchdog(void)
+{
+  struct itimerval it; memset(&it, 0, sizeof(it));
+  it.it_value.tv_sec = 10; setitimer(ITIMER_VIRTUAL, &it, NULL);      /* 10 s of CPU per case */
+  alarm(45);                                                           /* wall-clock backstop */
+}
+
 int main(void)
 {
   setvbuf(stdout, NULL, _IOLBF, 0);
   line = (char *)malloc(MAXLINE);
+  signal(SIGVTALRM, on_alarm); signal(SIGALRM, on_alarm);
   while (fgets(line, MAXLINE, stdin)) {
     size_t l = strlen(line);
+    arm_watchdog();
     while (l && (line[l - 1] == '\n' || line[l - 1] == '\r')) line[--l] = 0;
     if (!strncmp(line, "hdr", 3)) run_hdr(line[3] ? line + 4 : "");
     else if (!strncmp(line, "mk ", 3)) run_mk(line + 3);
     else if (!strncmp(line, "dec ", 4)) run_dec(line + 4);
     else if (!strncmp(line, "hist ", 5)) run_hist(line + 5);
+    else if (!strncmp(line, "crop ", 5)) run_crop(line + 5);
+    else if (!strncmp(line, "bq ", 3)) run_bq(line + 3);
     else puts("?");
   }
   return 0;
